@@ -6,6 +6,37 @@ import os
 ROOT = os.path.dirname(os.path.dirname(os.path.abspath(__file__)))
 
 CHECKS = {
+    "C15": dict(
+        cat="model_checking", engine="VmxCrypto",
+        text="spec/VmxCrypto.tla models the unlock protocol with symbolic cryptography (locator fall-through, decrypt, verify, commit) and "
+             "TLC checks RoundTrip, FailLeavesAttr, CommitOnlyIfVerified and FailsWhenItMust; every terminal state is realised as a real "
+             "bundle (AES-CBC/PKCS#7, HMAC, PBKDF2 via pycryptodome/hashlib) with random algorithms, rounds, salts and content lengths and "
+             "unlocked by the real VMX class; all 18 algorithm triples x content lengths round-trip; every byte of encryption.data is "
+             "altered in turn; the committed sample is unlocked.",
+        note="bit-level AES/HMAC correctness is the crypto libraries'; the specification decides ordering, fall-through and atomicity",
+        technique="TLA+ protocol spec (symbolic crypto) + TLC, replay of terminal states as real encrypted bundles",
+        design="5/C15"),
+    "C16": dict(
+        cat="model_checking", engine="Envelope",
+        text="spec/Envelope.tla models ParseHeader -> KeyHashGate -> Decrypt/VerifyTag -> Return|Fail with symbolic cryptography and TLC "
+             "checks RoundTrip, NoPlaintextOnFailure, AuthFailsClosed; every terminal state (payload length class, extra attributes, "
+             "sealed AAD, 12 tamper sites, given key/AAD) is realised as a real AES-256-GCM envelope (attribute sets of every type and "
+             "order, explicit padding) and decrypted by the real Envelope; the CLI runs in-process on temp files; keystore texts in "
+             "several styles derive keys via the real KeyStore; the committed pair is decrypted and re-sealed.",
+        note="the reader authenticates a re-serialised header: zero padding, the unused size field and reserved record bytes are outside "
+             "the property's wording and are not asserted",
+        technique="TLA+ protocol spec (symbolic crypto) + TLC, replay of terminal states as real envelopes and CLI runs",
+        design="5/C16"),
+    "C17": dict(
+        cat="model_checking", engine="HyperV",
+        text="spec/HyperV.tla defines the stored tree, its distribution over key tables, stale lower-sequence copies, free entries and "
+             "header sequence numbers, and the decoder (highest sequence wins, free ignored, parents resolved in the active copy); TLC "
+             "checks DecodedEqualsStored and HighestSeqWins for all 13k file descriptions of 3 nodes; each is written as a real file with "
+             "values of all seven types (extreme integers, non-BMP strings, >= 0x800-byte values in file objects, long UTF-8 keys) and "
+             "decoded by the real HyperVFile; the two committed samples are decoded, re-encoded and decoded again.",
+        note="values are compared in Python, structure by the TLA+ decoder; <= 3 nodes exhaustively, fixtures give real-size trees",
+        technique="TLA+ spec + TLC exhaustive enumeration of file descriptions, replay of encoded files into the reader",
+        design="5/C17"),
     "C18": dict(
         cat="model_checking", engine="VmConfig",
         text="spec/VmConfig.tla defines, for VMX device sets, OVF reference graphs, VirtualBox media registries and PVS hardware lists, "
